@@ -101,7 +101,13 @@ for _i in range(1, 21):
     if _p not in PROPS and _p not in NOT_APPLICABLE:
         NOT_APPLICABLE[_p] = _PENDING
 
+_MIRSYM_PROPS = sorted(k for k, v in PROPS.items() if v.get("extra"))
 ENGINES = [
     dict(name="kani-overlay", path="runner/ + harness/incrate/", serves_properties=sorted(PROPS.keys()),
-         kind_free_text="Kani 0.68 / CBMC 6.11 bounded model checking of the real crate: harness files mounted as child modules of a scratch copy of /repo"),
+         kind_free_text="Kani 0.68 / CBMC 6.11 + CaDiCaL bounded model checking of the real crate: harness files mounted as child modules of a scratch copy of /repo "
+                        "(inductive steps from arbitrary states, recorder stubs, per-loop unwinding, native replay of counterexamples)"),
+    dict(name="mirsym", path="mirsym/ + runner/mirsym_extra.py", serves_properties=_MIRSYM_PROPS,
+         kind_free_text="own symbolic interpreter of the nightly's MIR dump of the scratch copy: Int domain (polynomials over limb atoms, quotient atoms for shifts/masks, "
+                        "monomial abstraction, z3 4.x linear integer arithmetic; every overflow assert of the checked MIR is an obligation) and ring domain (group formulas, "
+                        "ladder step, addition chains as polynomial identities over GF(2^255-19)); counterexamples re-executed concretely and cross-checked against the native build"),
 ]
